@@ -63,6 +63,9 @@ func checkC07(c *Ctx) {
 	c.Rule("C07-R16", "every way of completing an operator takes the same number of operands off the stack (a shortcut for a zero divisor that pushes before the dividend is popped leaves the dividend under the result)")
 	c.Expect("C07-R16", 1)
 	checkOperandsConsumedAlike(c, p, "C07-R16")
+	c.Rule("C07-R17", "nothing of a skipped conditional part is copied, %% included: every output in the interpreter's loop lies where the skipping mode is known to be emit")
+	c.Expect("C07-R17", 1)
+	checkOutputBehindSkipGate(c, p, "C07-R17")
 	c.Rule("C07-R15", "%d writes the decimal form of the number it pops: strconv's form handed to the output, or a helper decided by constant evaluation for every number from -1000 to 70000 (= C15-R10)")
 	c.Expect("C07-R15", 1)
 	c.asRule("C15-R10", "C07-R15", func() { checkDecimalOutput(c, p, "C15-R10") })
